@@ -414,31 +414,71 @@ structure LoopEnd where
 
 inductive Role | initiator | target deriving DecidableEq, Repr
 
-/-- the try/except/finally structure of the run loops: which handler a cause reaches, whether
-    `terminate()` is executed and how the loop is left (same table for both roles) -/
-def loopEnd (_r : Role) : Cause → LoopEnd
-  | .remoteDisc => ⟨true, .returns⟩
-  | .exchangeNone => ⟨true, .returns⟩
-  | .terminateCb => ⟨true, .returns⟩
-  | .keyboardInterrupt => ⟨true, .raisesKeyboardInterrupt⟩
-  | .ioError => ⟨true, .raisesSystemExit⟩
-  | .ioErrorPersistent => ⟨true, .raisesIOError⟩   -- terminate() raises inside the handler, after the local shutdown
-  | .keyAgreementError => ⟨true, .raisesSystemExit⟩
-  | .decryptionError => ⟨true, .raisesSystemExit⟩
-  | .encryptionError => ⟨true, .raisesSystemExit⟩
-  | .otherException => ⟨true, .reraises⟩       -- finally: terminate() if the link is not SHUTDOWN
+/-- where in the run loop the cause strikes: the DPS exchange(s) of the key agreement, the first
+    collect() of the initiator / first exchange of the target (both before `link.ESTABLISHED`),
+    or any later exchange -/
+inductive LoopPt | dps | first | established deriving DecidableEq, Repr
+
+/-- LogicalLinkController.link -/
+inductive Link | connected | established | shutdown deriving DecidableEq, Repr
+
+/-- activate() leaves the link CONNECTED; the loops set ESTABLISHED after the first collect
+    (initiator) / first exchange (target) -/
+def linkAt : LoopPt → Link
+  | .dps => .connected
+  | .first => .connected
+  | .established => .established
+
+/-- the `finally` clause: `if not self.link.SHUTDOWN: self.terminate(...)` -/
+def finallyTerminates (l : Link) : Bool := l != .shutdown
+
+/-- the cause is answered inside the try block (`return self.terminate(...)`, the `else` of the
+    while loop) or by an except clause that calls terminate() -/
+def handlerTerminates : Cause → Bool
+  | .otherException => false
+  | _ => true
+
+def leaveOf : Cause → Leave
+  | .remoteDisc | .exchangeNone | .terminateCb => .returns
+  | .keyboardInterrupt => .raisesKeyboardInterrupt
+  | .ioError | .keyAgreementError | .decryptionError | .encryptionError => .raisesSystemExit
+  | .ioErrorPersistent => .raisesIOError      -- terminate() raises inside the handler, after the local shutdown
+  | .otherException => .reraises
+
+/-- the try/except/finally structure of the run loops: whether `terminate()` is executed and how
+    the loop is left, for a cause striking at a point of the loop (same table for both roles) -/
+def loopEnd (_r : Role) (pt : LoopPt) (c : Cause) : LoopEnd :=
+  ⟨handlerTerminates c || finallyTerminates (linkAt pt), leaveOf c⟩
 
 /-- ContactlessFrontend.connect around llc.run: IOError, UnsupportedTargetError and
     KeyboardInterrupt are caught (return False); everything else passes -/
 inductive ConnectEnd | returns | raisesSystemExit | reraises deriving DecidableEq, Repr
 
-def connectEnd (r : Role) (c : Cause) : ConnectEnd :=
-  match (loopEnd r c).leave with
+def connectEnd (r : Role) (pt : LoopPt) (c : Cause) : ConnectEnd :=
+  match (loopEnd r pt c).leave with
   | .returns => .returns
   | .raisesKeyboardInterrupt => .returns
   | .raisesSystemExit => .raisesSystemExit
   | .raisesIOError => .returns
   | .reraises => .reraises
+
+/-! ## terminate() as a sequence of steps, interleaved with a bind() of an application thread -/
+
+inductive TStep | setFlag | shut (i : Nat) deriving DecidableEq, Repr
+
+/-- `with self.lock: self.terminated = True`, then the service access points 63 .. 0 -/
+def termSteps : List TStep := .setFlag :: ((List.range 64).reverse.map .shut)
+
+/-- the wrong order (flag after the loop), for the counter-example -/
+def termStepsFlagLast : List TStep := ((List.range 64).reverse.map .shut) ++ [.setFlag]
+
+inductive LateBind | refused | shutDown | leaked deriving DecidableEq, Repr
+
+/-- an application thread binds a socket to address `a` after `k` steps of terminate():
+    refused (ESHUTDOWN), shut down by the rest of the loop, or never shut down -/
+def lateBind (steps : List TStep) (k a : Nat) : LateBind :=
+  if (steps.take k).contains .setFlag then .refused
+  else if (steps.drop k).contains (.shut a) then .shutDown else .leaked
 
 /-- `terminate()` itself: the deactivation of the MAC may raise (dead device); the local
     shutdown is in a `finally` clause -/
